@@ -58,7 +58,8 @@ def cleanup():
 
 
 def omega_values(k):
-    return 1.0 + 5.0 / (1.0 + k * k) + 0.01 * np.sin(37.0 * k)
+    # takes both signs (the cross term of a freely jointed diblock is negative where sin(kl)/(kl) is) and has no symmetry
+    return 1.0 + 5.0 / (1.0 + k * k) + 0.01 * np.sin(37.0 * k) - 2.5 * np.sin(1.7 * k) ** 2 * np.exp(-0.05 * k)
 
 
 def target_length(L, rel):
